@@ -6,7 +6,7 @@ PROPS = "Props/C17"
 
 def specs_for(ctx, fam):
     quick = ctx.quick()
-    return repo_corpus(quick) + rand_specs(ctx, 3 if quick else 40, prefix="rg", verifdump=fam.bins.get("verifdump"))
+    return repo_corpus(quick) + rand_specs(ctx, 3 if quick else 24, prefix="rg", verifdump=fam.bins.get("verifdump"))
 
 
 def le32(tag):
